@@ -11,6 +11,8 @@ package connlimiter
 // state; TLC (TraceConnLimiter.tla) decides.
 
 import (
+	"unsafe"
+	"reflect"
 	"errors"
 	"fmt"
 	"io"
@@ -226,7 +228,7 @@ func (w *c18World) observe(ev *c18Event) {
 	ev.Accepting = w.lim.counter.isAccepting
 	ev.Closed = map[string]bool{}
 	for id, l := range w.ls {
-		ev.Closed[id] = l.lim.(*limitListener).isClosed
+		ev.Closed[id] = c18IsClosed(l.lim.(*limitListener))
 	}
 	w.lim.counterCond.L.Unlock()
 	ev.Stop, ev.Resume = w.stop, w.resume
@@ -246,7 +248,7 @@ func (w *c18World) enabled(s c18Step) bool {
 	case "Accept":
 		return w.ls[s.L].state == "idle"
 	case "InnerOK":
-		return w.ls[s.L].state == "inner" && !w.ls[s.L].lim.(*limitListener).isClosed
+		return w.ls[s.L].state == "inner" && !c18IsClosed(w.ls[s.L].lim.(*limitListener))
 	case "InnerErr":
 		return w.ls[s.L].state == "inner"
 	case "CloseConn":
@@ -256,7 +258,7 @@ func (w *c18World) enabled(s c18Step) bool {
 		c := w.inners[s.C]
 		return c != nil && c.closes.Load() > 0
 	case "CloseListener":
-		return !w.ls[s.L].lim.(*limitListener).isClosed
+		return !c18IsClosed(w.ls[s.L].lim.(*limitListener))
 	}
 	return false
 }
@@ -536,3 +538,18 @@ func (c *c18StressConn) Close() error {
 	return nil
 }
 func (c *c18StressConn) RemoteAddr() net.Addr { return &net.TCPAddr{} }
+
+// c18IsClosed reads the listener's closed flag whatever its representation (a
+// plain bool under the limiter's lock, or an atomic): the harness reads it at
+// quiescent points only.
+func c18IsClosed(l *limitListener) bool {
+	v := reflect.ValueOf(l).Elem().FieldByName("isClosed")
+	p := unsafe.Pointer(v.UnsafeAddr())
+	if v.Kind() == reflect.Bool {
+		return *(*bool)(p)
+	}
+	if ab, ok := reflect.NewAt(v.Type(), p).Interface().(*atomic.Bool); ok {
+		return ab.Load()
+	}
+	panic(fmt.Sprintf("limitListener.isClosed has type %s", v.Type()))
+}
